@@ -98,6 +98,11 @@ def scenarios(rng: random.Random, tier: str):
     out.append(nodegen.CONFIGS["basic"] + " | start | " + " | ".join(
         f"acc | rx {i} " + nodegen.cer("stranger.x", "4", n(), n()) for i in range(4)) + " | tick")
     out.append(nodegen.CONFIGS["out"] + " | start fail,fail | adv 6 | dial fail,ok | adv 6")
+    # two ready peers of one application, one of them awaiting a DWA, then the other connection ends
+    for closer in ("eof 0", "rerr 0 hard", "rx 0 " + nodegen.dpr(n(), n()) + " | eof 0", "eof 1"):
+        for wait in ("adv 11", "adv 11 | rx 0 " + nodegen.dwa(n(), n()), "adv 11 | rx 1 " + nodegen.dwa(n(), n(), "peer2.x")):
+            out.append(two + " | start | acc | rx 0 " + nodegen.cer("peer1.x", "4+3", n(), n(), extra=",acct=3") + " | acc | rx 1 " +
+                       nodegen.cer("peer2.x", "4+3", n(), n(), extra=",acct=3") + f" | {wait} | {closer} | tick")
     alphabet = lambda c: [  # noqa: E731
         "acc", f"rx {c} " + nodegen.cer(rng.choice(["peer1.x", "peer2.x"]), rng.choice(["4", "99", "4+3"]), n(), n()),
         f"rx {c} " + nodegen.cer("stranger.x", "4", n(), n()), f"rx {c} " + nodegen.cea(2001, rng.choice(["peer1.x", "peer2.x"]), n(), n()),
